@@ -127,6 +127,10 @@ WRAPS = ["exit", "pool_allocate_object", "ran_num_next", "rand", "srand"]
 def build_harness(variant, name="mmdreplay", sources=None, wraps=WRAPS, extra_cflags=(), extra_ld=()):
     """Build harness/<sources> + library objects of the variant; returns path of the executable."""
     v = VARIANTS[variant]
+    if variant == "tsan":
+        wraps = ["exit"]
+    elif variant == "nopool":
+        wraps = [w for w in wraps if w != "pool_allocate_object"]
     objs = build_objects(variant)
     hdir = os.path.join(VERIF, "harness")
     sources = sources or sorted(glob.glob(os.path.join(hdir, "*.c")))
